@@ -6,8 +6,8 @@ From Inferno Require Import Base.Num Base.NumR C19.Encoders C19.EncodersLists C1
 Import ListNotations.
 Open Scope R_scope.
 Theorem pie_online_zero_silent : forall (c : config RN) (xs : list (T RN)) (draws0 : list Z) (draws : list (list Z))
-    (outs : list (list bool)) (raised : bool) (j : nat),
-  pie_online RN c xs draws0 draws = Ok (outs, raised) ->
+    (outs : list (list bool)) (j : nat),
+  pie_online RN c xs draws0 draws = Ok outs ->
   length draws0 = length xs ->
   nth j xs 0 = 0 -> forall t : nat, nth j (nth t outs []) false = false.
 Proof. exact (@Inferno.C19.EncodersProofs.pie_online_zero_silent). Qed.
